@@ -175,6 +175,7 @@ type c20Case struct {
 	Limit   int           `json:"limit,omitempty"`
 	Vars    interface{}   `json:"vars,omitempty"`
 	Path    []interface{} `json:"path,omitempty"`
+	Replace []int         `json:"replace,omitempty"` // validate: indices into allRules re-installed through validator.ReplaceRule first
 }
 
 func c20Eval(c c20Case) (viol string, tmpls []string) {
@@ -263,6 +264,78 @@ func c20Eval(c c20Case) (viol string, tmpls []string) {
 					}
 				}
 			}
+			// rule-set editing API (validator.ReplaceRule/AddRule/RemoveRule on the global set): replacing a
+			// registered rule by itself and adding then removing a probe rule leave the set as it was, so the
+			// default rules must report what they reported before, every error still naming its rule; the
+			// probe's own error carries the probe's name while it is installed.
+			if len(c.Replace) > 0 {
+				before := keysOf(validator.Validate(s, mustParseQuery(c.QName, c.Query)), func(r string) string { return r }, false)
+				for _, i := range c.Replace {
+					if i >= 0 && i < len(allRules) {
+						// the replacement does what the rule did and marks every operation, so that the
+						// name under which it now runs is observable whatever the document contains
+						orig := allRules[i]
+						validator.ReplaceRule(orig.Name, func(observers *validator.Events, addError validator.AddErrFunc) {
+							orig.RuleFunc(observers, addError)
+							observers.OnOperation(func(walker *validator.Walker, op *ast.OperationDefinition) {
+								addError(validator.Message("replaced:"+orig.Name), validator.At(op.Position))
+							})
+						})
+					}
+				}
+				marks := map[string]int{}
+				const probe = "VerifProbeRule"
+				validator.ReplaceRule(probe, func(observers *validator.Events, addError validator.AddErrFunc) {
+					observers.OnOperation(func(walker *validator.Walker, op *ast.OperationDefinition) {
+						addError(validator.Message("probe"), validator.At(op.Position))
+					})
+				})
+				d3 := mustParseQuery(c.QName, c.Query)
+				var rest gqlerror.List
+				probed := 0
+				for _, e := range validator.Validate(s, d3) {
+					if e.Message == "probe" {
+						probed++
+						if e.Rule != probe {
+							note(fmt.Sprintf("Validate(after ReplaceRule of an unknown name): the added rule's error names rule %q, want %q", e.Rule, probe), "")
+						}
+						continue
+					}
+					if strings.HasPrefix(e.Message, "replaced:") {
+						marks[e.Message[len("replaced:"):]]++
+						if e.Rule != e.Message[len("replaced:"):] {
+							note(fmt.Sprintf("Validate(after ReplaceRule): an error of the rule installed as %q names rule %q", e.Message[len("replaced:"):], e.Rule), "")
+						}
+						continue
+					}
+					rest = append(rest, e)
+					if note(checkErrorShape(e, errExpect{entry: "Validate(after ReplaceRule)/" + e.Rule, file: c.QName, validation: true})) {
+						break
+					}
+				}
+				validator.RemoveRule(probe)
+				for _, i := range c.Replace {
+					if i >= 0 && i < len(allRules) {
+						if marks[allRules[i].Name] != len(d3.Operations) {
+							note(fmt.Sprintf("Validate(after ReplaceRule): the replacement of %s ran %d times for %d operations", allRules[i].Name, marks[allRules[i].Name], len(d3.Operations)), "")
+						}
+						validator.ReplaceRule(allRules[i].Name, allRules[i].RuleFunc)
+					}
+				}
+				if probed != len(d3.Operations) {
+					note(fmt.Sprintf("Validate(after ReplaceRule of an unknown name): the added rule reported %d errors for %d operations", probed, len(d3.Operations)), "")
+				}
+				after := keysOf(rest, func(r string) string { return r }, false)
+				if strings.Join(before, "\n") != strings.Join(after, "\n") {
+					note(fmt.Sprintf("Validate(after ReplaceRule of rules %v by themselves): errors differ: before %q, after %q", c.Replace, before, after), "")
+				}
+				for _, e := range validator.Validate(s, mustParseQuery(c.QName, c.Query)) {
+					if e.Message == "probe" || strings.HasPrefix(e.Message, "replaced:") {
+						note("Validate(after RemoveRule and after putting the original rules back): a removed or replaced rule still reports: "+e.Message, "")
+						break
+					}
+				}
+			}
 			if c.QName == "" {
 				_, errs := gqlparser.LoadQuery(s, c.Query)
 				for _, e := range errs {
@@ -324,7 +397,7 @@ func c20Eval(c c20Case) (viol string, tmpls []string) {
 func TestC20(t *testing.T) {
 	r := kit.New(t, "C20")
 	defer r.Finish()
-	r.SetRule("error-biased use of every entry point: lexer and both parsers (with and without limits, named and unnamed sources) on lexical soups, truncated and mutated documents; LoadSchema on G7 single-fault schemas split over named sources; Validate (default rules and the rule list with the four without-suggestions variants) and LoadQuery on G9-faulty, misspelt and type-blind documents from named and unnamed sources; VariableValues on G10 defects; ast.Path values of length <= 6 over names and indices (all of length <= 3 over a small alphabet, random beyond). " +
+	r.SetRule("error-biased use of every entry point: lexer and both parsers (with and without limits, named and unnamed sources) on lexical soups, truncated and mutated documents; LoadSchema on G7 single-fault schemas split over named sources; Validate (default rules, the rule list with the four without-suggestions variants, and the default rules again after editing the global rule set: ReplaceRule of up to six registered rules by themselves plus a probe rule added through ReplaceRule and removed through RemoveRule - same errors, each still naming its rule, the probe error naming the probe) and LoadQuery on G9-faulty, misspelt and type-blind documents from named and unnamed sources; VariableValues on G10 defects; ast.Path values of length <= 6 over names and indices (all of length <= 3 over a small alphabet, random beyond). " +
 		"oracle: non-empty message; validation errors have rule and >= 1 location; extensions.file == the source name; JSON encoding is an object with string message, locations of positive integer line/column (both present), path of strings and non-negative integers; paths round-trip through JSON. " +
 		"non-trivial = an error was produced; distinct by message template (quoted names and numbers replaced) per entry point")
 	replay := func(raw json.RawMessage) string {
@@ -458,6 +531,9 @@ func TestC20(t *testing.T) {
 			rt.Skip("no case")
 		}
 		c := c20Case{Kind: "validate", Schema: vc.Schema, Query: vc.Query, QName: rapid.SampledFrom([]string{"", "request.graphql"}).Draw(rt, "qname")}
+		if rapid.IntRange(0, 2).Draw(rt, "edits") == 0 {
+			c.Replace = rapid.SliceOfNDistinct(rapid.IntRange(0, len(allRules)-1), 1, 6, rapid.ID[int]).Draw(rt, "replace")
+		}
 		record("validate", c, func(v string) { r.Failf(rt, "validate", c, "%s", v) })
 	})
 	vs := gen.VarsSchema()
@@ -482,4 +558,12 @@ func TestC20(t *testing.T) {
 		list = append(list, t)
 	}
 	r.Extra("distinct_message_templates", len(list))
+}
+
+func mustParseQuery(name, text string) *ast.QueryDocument {
+	d, err := parser.ParseQuery(&ast.Source{Name: name, Input: text})
+	if err != nil {
+		panic("c20: query stopped parsing: " + err.Error())
+	}
+	return d
 }
